@@ -71,7 +71,11 @@ def resp_script(resp, trailers=None):
     if trailers is not None:
         start["trailers"] = True
     sc = [["recv_until_end"], ["send", start], ["send_chunks", ("resp", resp["tag"]), resp["sizes"], resp["pause_k"]]]
-    if trailers is not None:
+    if trailers is not None and len(trailers) > 1:
+        # the trailers come in two messages (more_trailers): the client still sees them all
+        sc.append(["try_send", {"type": "http.response.trailers", "headers": trailers[:1], "more_trailers": True}])
+        sc.append(["try_send", {"type": "http.response.trailers", "headers": trailers[1:], "more_trailers": False}])
+    elif trailers is not None:
         sc.append(["try_send", {"type": "http.response.trailers", "headers": trailers, "more_trailers": False}])
     return sc
 
@@ -153,7 +157,7 @@ def _case_h2(rng, tier, n, h2c=False):
             resp["cl"] = False
         trailers = None
         if want_trailers and not h2c:
-            trailers = [(b"x-trailer", b"v%d" % tag)]
+            trailers = [(b"x-trailer", b"v%d" % tag)] + ([(b"x-checksum", b"c%d" % tag)] if rng.random() < 0.4 else [])
             resp["trailers"] = trailers
             resp["te"] = te
         by_tag[str(tag)] = resp_script(resp, trailers)
